@@ -25,203 +25,6 @@ macro_rules! with_width {
     };
 }
 
-// ------------------------------------------------------------------------------------------ cell
-
-fn cell_one<C: CellType>(op: &str, a: u64, b: u64) -> String {
-    let ca = C::from_u64(a);
-    let cb = C::from_u64(b);
-    let opt = |o: Option<C>| match o {
-        Some(v) => v.into_u64().to_string(),
-        None => "none".to_string(),
-    };
-    match op {
-        "pow" => ca.wrapping_pow(cb).into_u64().to_string(),
-        "inv" => opt(ca.wrapping_inv()),
-        "div" => opt(ca.wrapping_div(cb)),
-        "tz" => ca.trailing_zeros().to_string(),
-        "shr" => ca.wrapping_shr(b as u32).into_u64().to_string(),
-        "shl" => ca.wrapping_shl(b as u32).into_u64().to_string(),
-        "odd" => ca.is_odd().to_string(),
-        "intou64" => ca.into_u64().to_string(),
-        "intoi64" => (ca.into_i64() as u64).to_string(),
-        "fromu64" => C::from_u64(a).into_u64().to_string(),
-        "fromu8" => C::from_u8(a as u8).into_u64().to_string(),
-        "intou8" => ca.into_u8().to_string(),
-        "fromi16" => C::from_i16(a as u16 as i16).into_u64().to_string(),
-        "tryi16" => match ca.try_into_i16() {
-            Some(v) => (v as u16).to_string(),
-            None => "none".to_string(),
-        },
-        _ => unreachable!(),
-    }
-}
-
-fn interesting(r: &mut Rng, w: u32) -> u64 {
-    let mask = if w == 64 { u64::MAX } else { (1u64 << w) - 1 };
-    let v = match r.below(8) {
-        0 => r.below(4),
-        1 => mask - r.below(4),
-        2 => 1u64 << r.below(w as u64),
-        3 => (1u64 << r.below(w as u64)).wrapping_sub(1),
-        4 => (1u64 << (w - 1)).wrapping_add(r.below(3)).wrapping_sub(1),
-        5 => (r.next() | 1) << r.below(w as u64),
-        _ => r.next(),
-    };
-    v & mask
-}
-
-pub fn cell(r: &mut Rng, count: usize, out: &mut Out) {
-    // exhaustive at 8 bit for div, inv, pow on a grid
-    for a in 0..256u64 {
-        for b in 0..256u64 {
-            out.case(&format!("cell 8 div {a} {b}"), &cell_one::<u8>("div", a, b));
-        }
-        out.case(&format!("cell 8 inv {a}"), &cell_one::<u8>("inv", a, 0));
-        out.case(&format!("cell 8 tz {a}"), &cell_one::<u8>("tz", a, 0));
-        for b in [0u64, 1, 2, 3, 7, 8, 127, 128, 129, 254, 255] {
-            out.case(&format!("cell 8 pow {a} {b}"), &cell_one::<u8>("pow", a, b));
-        }
-        for op in ["intoi64", "intou8", "tryi16", "odd"] {
-            out.case(&format!("cell 8 {op} {a}"), &cell_one::<u8>(op, a, 0));
-        }
-    }
-    out.stats.insert("exhaustive8".into(), 256 * 256);
-    for _ in 0..count {
-        let w = *r.pick(&WIDTHS);
-        let a = interesting(r, w);
-        let b = interesting(r, w);
-        let op2 = *r.pick(&["pow", "div", "div", "div"]);
-        out.case(
-            &format!("cell {w} {op2} {a} {b}"),
-            &with_width!(w, cell_one, op2, a, b),
-        );
-        out.stat(op2);
-        let op1 = *r.pick(&["inv", "tz", "odd", "intou64", "intoi64", "intou8", "tryi16"]);
-        out.case(
-            &format!("cell {w} {op1} {a}"),
-            &with_width!(w, cell_one, op1, a, 0),
-        );
-        out.stat(op1);
-        let s = r.below(70);
-        let ops = *r.pick(&["shr", "shl"]);
-        out.case(
-            &format!("cell {w} {ops} {a} {s}"),
-            &with_width!(w, cell_one, ops, a, s),
-        );
-        let v64 = r.next();
-        out.case(
-            &format!("cell {w} fromu64 {v64}"),
-            &with_width!(w, cell_one, "fromu64", v64, 0),
-        );
-        let v16 = r.below(65536);
-        out.case(
-            &format!("cell {w} fromi16 {v16}"),
-            &with_width!(w, cell_one, "fromi16", v16, 0),
-        );
-        let v8 = r.below(256);
-        out.case(
-            &format!("cell {w} fromu8 {v8}"),
-            &with_width!(w, cell_one, "fromu8", v8, 0),
-        );
-    }
-}
-
-// ------------------------------------------------------------------------------------------- mem
-
-fn mem_history<C: CellType>(w: u32, r: &mut Rng, out: &mut Out) {
-    let mut mem = Memory::<C>::new();
-    let n = 1 + r.below(25);
-    let mut req = format!("mem {w}");
-    let mut imp: Vec<String> = Vec::new();
-    let sz = (w / 8) as i64;
-    let far = |r: &mut Rng| -> i64 {
-        match r.below(6) {
-            0 => r.range(-3, 3),
-            1 => r.range(-40, 40),
-            2 => r.range(-3000, 3000),
-            3 => *r.pick(&[0i64, 1, -1]),
-            4 => r.range(-100000, 100000),
-            _ => r.range(-10, 10),
-        }
-    };
-    let mut grown = false;
-    for _ in 0..n {
-        let lay = |m: &Memory<C>| {
-            let (s, o) = m.verif_layout();
-            format!("@{}/{}", s, o)
-        };
-        match r.below(if grown { 16 } else { 12 }) {
-            0 | 1 => {
-                let d = far(r);
-                mem.mov(d as isize);
-                req.push_str(&format!(" m{d}"));
-                imp.push(format!("m{}", lay(&mem)));
-                out.stat("mov");
-            }
-            2..=4 => {
-                let d = far(r);
-                let v = mem.read(d as isize);
-                req.push_str(&format!(" r{d}"));
-                imp.push(format!("r{}{}", v.into_u64(), lay(&mem)));
-                out.stat("read");
-            }
-            5..=7 => {
-                let d = far(r);
-                let v = 1 + r.below(250);
-                mem.write(d as isize, C::from_u64(v));
-                req.push_str(&format!(" w{d}:{v}"));
-                imp.push(format!("w{}", lay(&mem)));
-                grown = true;
-                out.stat("write");
-            }
-            8 | 9 => {
-                let a = far(r);
-                let len = r.range(0, 50);
-                let (s, e) = if r.chance(1, 8) { (a, a - len) } else { (a, a + len) };
-                mem.make_accessible(s as isize, e as isize);
-                req.push_str(&format!(" a{s}:{e}"));
-                imp.push(format!("a{}", lay(&mem)));
-                grown = true;
-                out.stat("make_accessible");
-            }
-            10 | 11 => {
-                let d = far(r);
-                let c = mem.check(d as isize);
-                req.push_str(&format!(" c{d}"));
-                imp.push(format!("c{}{}", c, lay(&mem)));
-                out.stat("check");
-            }
-            12 | 13 => {
-                // set_current_ptr(current_ptr + delta bytes)
-                let cells = far(r);
-                let delta = cells * sz + if r.chance(1, 6) { r.range(0, sz - 1) } else { 0 };
-                let p = (mem.current_ptr() as *mut u8).wrapping_offset(delta as isize) as *mut C;
-                mem.set_current_ptr(p);
-                req.push_str(&format!(" s{delta}"));
-                imp.push(format!("s{}", lay(&mem)));
-                out.stat("set_current_ptr");
-            }
-            _ => {
-                let cells = far(r);
-                let delta = cells * sz;
-                let p = (mem.current_ptr() as *mut u8).wrapping_offset(delta as isize) as *mut C;
-                let c = mem.check_ptr(p);
-                req.push_str(&format!(" k{delta}"));
-                imp.push(format!("k{}{}", c, lay(&mem)));
-                out.stat("check_ptr");
-            }
-        }
-    }
-    out.case(&req, &imp.join(" "));
-}
-
-pub fn mem(r: &mut Rng, count: usize, out: &mut Out) {
-    for _ in 0..count {
-        let w = *r.pick(&WIDTHS);
-        with_width!(w, mem_history, w, r, out);
-    }
-}
-
 // ------------------------------------------------------------------------------------ executors
 
 pub enum Mode {
@@ -466,7 +269,7 @@ pub const LEVELS: [u32; 6] = [0, 1, 2, 3, 4, 7];
 fn e2e_case<C: CellType>(w: u32, code: &str, env: &EnvSpec, out: &mut Out) {
     // Gate: the in-place interpreter (tied to its model separately) must finish within the budget,
     // otherwise the case is skipped (counted).
-    let gate_budget = 3000usize;
+    let gate_budget = if out.fixed_fuel.is_some() { 300000usize } else { 3000usize };
     let inplace = InplaceInterpreter::<C>::create(code, 0).unwrap();
     let mut genv = env.clone();
     // bound the output of the gate run
@@ -479,7 +282,10 @@ fn e2e_case<C: CellType>(w: u32, code: &str, env: &EnvSpec, out: &mut Out) {
         out.stat("skipped_long");
         return;
     }
-    let fuel = (gate_budget + 2) * (code.len() + 2) + 10;
+    let fuel = match &out.fixed_fuel {
+        Some(f) => f.clone(),
+        None => ((gate_budget + 2) * (code.len() + 2) + 10).to_string(),
+    };
     let mut results: Vec<(String, String)> = Vec::new();
     results.push(("inplace".to_string(), format!("ok {}", g.trace)));
     for &lvl in &LEVELS {
@@ -537,415 +343,55 @@ pub fn e2e(r: &mut Rng, count: usize, out: &mut Out) {
     }
 }
 
-// -------------------------------------------------------------------------------------- smallvec
+// ---------------------------------------------------------------------------------------- replay
 
-mod sv {
-    use super::*;
-    use hpbf::verif::SmallVec;
-    use std::cell::RefCell;
-
-    thread_local! {
-        static NEXT_ID: RefCell<u64> = RefCell::new(0);
-        static DROPS: RefCell<Vec<u64>> = RefCell::new(Vec::new());
-    }
-
-    pub struct Tracked {
-        pub id: u64,
-        pub val: u64,
-    }
-    impl Tracked {
-        pub fn new(val: u64) -> Self {
-            let id = NEXT_ID.with(|n| {
-                let mut n = n.borrow_mut();
-                *n += 1;
-                *n
-            });
-            Tracked { id, val }
+/// Re-run request lines (from the corpus or a replay file) through the real code.
+pub fn replay(lines: &[String], out: &mut Out) {
+    for line in lines {
+        let t: Vec<&str> = line.split_whitespace().collect();
+        if t.is_empty() {
+            continue;
         }
-    }
-    impl Clone for Tracked {
-        fn clone(&self) -> Self {
-            Tracked::new(self.val)
-        }
-    }
-    impl Drop for Tracked {
-        fn drop(&mut self) {
-            DROPS.with(|d| d.borrow_mut().push(self.id));
-        }
-    }
-    impl PartialEq for Tracked {
-        fn eq(&self, o: &Self) -> bool {
-            self.val == o.val
-        }
-    }
-    impl Eq for Tracked {}
-    impl PartialOrd for Tracked {
-        fn partial_cmp(&self, o: &Self) -> Option<std::cmp::Ordering> {
-            Some(self.cmp(o))
-        }
-    }
-    impl Ord for Tracked {
-        fn cmp(&self, o: &Self) -> std::cmp::Ordering {
-            self.val.cmp(&o.val)
-        }
-    }
-
-    fn take_drops() -> String {
-        DROPS.with(|d| {
-            let mut d = d.borrow_mut();
-            let s = if d.is_empty() {
-                "-".to_string()
-            } else {
-                d.iter().map(|x| x.to_string()).collect::<Vec<_>>().join(",")
-            };
-            d.clear();
-            s
-        })
-    }
-
-    fn view<const N: usize>(v: &SmallVec<Tracked, N>) -> String {
-        let s = v.as_slice();
-        if s.is_empty() {
-            "-".to_string()
-        } else {
-            s.iter().map(|t| format!("{}:{}", t.id, t.val)).collect::<Vec<_>>().join(",")
-        }
-    }
-
-    pub fn history<const N: usize>(r: &mut Rng, out: &mut Out) {
-        NEXT_ID.with(|n| *n.borrow_mut() = 0);
-        DROPS.with(|d| d.borrow_mut().clear());
-        let mut created: u64;
-        let mut all_drops: Vec<u64> = Vec::new();
-        let mut vars: Vec<Option<SmallVec<Tracked, N>>> = vec![None, None, None];
-        let mut req = format!("sv {N}");
-        let mut imp: Vec<String> = Vec::new();
-        let nops = 1 + r.below(14);
-        let small = |r: &mut Rng| r.below(4);
-        for _ in 0..nops {
-            let a = r.below(3) as usize;
-            let before_drops = |imp: &mut Vec<String>, all: &mut Vec<u64>, s: String| {
-                DROPS.with(|d| all.extend(d.borrow().iter().copied()));
-                let dr = take_drops();
-                imp.push(format!("{s}/{dr}"));
-            };
-            if vars[a].is_none() {
-                match r.below(4) {
-                    0 => {
-                        vars[a] = Some(SmallVec::new());
-                        req.push_str(&format!(" new:{a}"));
-                        out.stat("new");
-                    }
-                    1 => {
-                        let n = r.below(5);
-                        vars[a] = Some(SmallVec::with_capacity(n as usize));
-                        req.push_str(&format!(" cap:{a}:{n}"));
-                        out.stat("with_capacity");
-                    }
-                    2 => {
-                        let k = r.below(4);
-                        let vals: Vec<u64> = (0..k).map(|_| small(r)).collect();
-                        let v: Vec<Tracked> = vals.iter().map(|&x| Tracked::new(x)).collect();
-                        vars[a] = Some(SmallVec::from_vec(v));
-                        req.push_str(&format!(
-                            " fromvec:{a}:{}",
-                            if vals.is_empty() { "-".to_string() } else { vals.iter().map(|x| x.to_string()).collect::<Vec<_>>().join(",") }
-                        ));
-                        out.stat("from_vec");
-                    }
-                    _ => {
-                        let x = small(r);
-                        vars[a] = Some(SmallVec::with(Tracked::new(x)));
-                        req.push_str(&format!(" with:{a}:{x}"));
-                        out.stat("with");
-                    }
-                }
-                let s = view(vars[a].as_ref().unwrap());
-                before_drops(&mut imp, &mut all_drops, s);
-                continue;
+        let before = out.cases;
+        match t[0] {
+            "bftrace" if t.len() == 6 => {
+                let w: u32 = t[1].parse().unwrap();
+                let env = EnvSpec::decode(t[3], t[4]).unwrap();
+                let code = String::from_utf8(crate::util::unhex(t[5]).unwrap()).unwrap();
+                out.fixed_fuel = Some(t[2].to_string());
+                with_width!(w, e2e_case, w, &code, &env, out);
+                out.fixed_fuel = None;
             }
-            match r.below(16) {
-                0..=3 => {
-                    let x = small(r);
-                    vars[a].as_mut().unwrap().push(Tracked::new(x));
-                    req.push_str(&format!(" push:{a}:{x}"));
-                    out.stat("push");
-                }
-                4 => {
-                    let k = r.below(4);
-                    let vals: Vec<u64> = (0..k).map(|_| small(r)).collect();
-                    let els: Vec<Tracked> = vals.iter().map(|&x| Tracked::new(x)).collect();
-                    vars[a].as_mut().unwrap().extend(els.into_iter());
-                    req.push_str(&format!(
-                        " ext:{a}:{}",
-                        if vals.is_empty() { "-".to_string() } else { vals.iter().map(|x| x.to_string()).collect::<Vec<_>>().join(",") }
-                    ));
-                    out.stat("extend");
-                }
-                5 => {
-                    vars[a].as_mut().unwrap().clear();
-                    req.push_str(&format!(" clear:{a}"));
-                    out.stat("clear");
-                }
-                6 | 7 => {
-                    let m = 2 + r.below(2);
-                    let rr = r.below(m);
-                    vars[a].as_mut().unwrap().retain(|t| t.val % m != rr);
-                    req.push_str(&format!(" retain:{a}:{m}:{rr}"));
-                    out.stat("retain");
-                }
-                8 => {
-                    let m = 2 + r.below(2);
-                    let rr = r.below(m);
-                    vars[a].as_mut().unwrap().retain_mut(|t| {
-                        t.val += 1;
-                        t.val % m != rr
-                    });
-                    req.push_str(&format!(" retmut:{a}:{m}:{rr}"));
-                    out.stat("retain_mut");
-                }
-                9 | 10 => {
-                    vars[a].as_mut().unwrap().dedup();
-                    req.push_str(&format!(" dedup:{a}"));
-                    out.stat("dedup");
-                }
-                11 => {
-                    vars[a].as_mut().unwrap().sort();
-                    req.push_str(&format!(" sort:{a}"));
-                    out.stat("sort");
-                }
-                12 => {
-                    let b = (a + 1 + r.below(2) as usize) % 3;
-                    let c = vars[a].as_ref().unwrap().clone();
-                    vars[b] = Some(c);
-                    req.push_str(&format!(" clone:{a}:{b}"));
-                    out.stat("clone");
-                    let s = view(vars[b].as_ref().unwrap());
-                    before_drops(&mut imp, &mut all_drops, s);
-                    continue;
-                }
-                13 => {
-                    let b = (a + 1 + r.below(2) as usize) % 3;
-                    if let Some(vb) = vars[b].as_ref() {
-                        let va = vars[a].as_ref().unwrap();
-                        let e = va == vb;
-                        let c = match va.cmp(vb) {
-                            std::cmp::Ordering::Less => "lt",
-                            std::cmp::Ordering::Equal => "eq",
-                            std::cmp::Ordering::Greater => "gt",
-                        };
-                        req.push_str(&format!(" cmp:{a}:{b}"));
-                        imp.push(format!("{e},{c}"));
-                        out.stat("cmp");
-                    }
-                    continue;
-                }
-                14 => {
-                    let k = r.below(4);
-                    let v = vars[a].take().unwrap();
-                    let mut it = v.into_iter();
-                    let mut got = Vec::new();
-                    for _ in 0..k {
-                        if let Some(t) = it.next() {
-                            got.push(format!("{}:{}", t.id, t.val));
-                        } else {
-                            got.push("none".to_string());
-                        }
-                    }
-                    drop(it);
-                    req.push_str(&format!(" iter:{a}:{k}"));
-                    out.stat("into_iter");
-                    let s = if got.is_empty() { "-".to_string() } else { got.join(",") };
-                    before_drops(&mut imp, &mut all_drops, s);
-                    continue;
-                }
-                _ => {
-                    vars[a] = None;
-                    req.push_str(&format!(" drop:{a}"));
-                    out.stat("drop");
-                    before_drops(&mut imp, &mut all_drops, "-".to_string());
-                    continue;
-                }
+            "inplace" if t.len() == 8 => {
+                let w: u32 = t[1].parse().unwrap();
+                let env = EnvSpec::decode(t[5], t[6]).unwrap();
+                let code = String::from_utf8_lossy(&crate::util::unhex(t[7]).unwrap()).to_string();
+                let budget: usize = t[3].parse().unwrap();
+                with_width!(w, inplace_case, w, &code, &env, budget, out);
             }
-            let s = view(vars[a].as_ref().unwrap());
-            before_drops(&mut imp, &mut all_drops, s);
-        }
-        // end of history: drop everything, then every created element must have been dropped once
-        for v in vars.iter_mut() {
-            *v = None;
-        }
-        DROPS.with(|d| all_drops.extend(d.borrow().iter().copied()));
-        let dr = take_drops();
-        created = NEXT_ID.with(|n| *n.borrow());
-        let mut counts = vec![0u32; created as usize + 1];
-        for &d in &all_drops {
-            counts[d as usize] += 1;
-        }
-        let leaked: Vec<String> = (1..=created).filter(|&i| counts[i as usize] == 0).map(|i| i.to_string()).collect();
-        let twice: Vec<String> = (1..=created).filter(|&i| counts[i as usize] > 1).map(|i| i.to_string()).collect();
-        created = created;
-        req.push_str(" end");
-        imp.push(format!(
-            "end/{dr}/leaked={}/twice={}/created={created}",
-            if leaked.is_empty() { "-".to_string() } else { leaked.join(",") },
-            if twice.is_empty() { "-".to_string() } else { twice.join(",") }
-        ));
-        out.case(&req, &imp.join(" "));
-    }
-}
-
-pub fn smallvec(r: &mut Rng, count: usize, out: &mut Out) {
-    for _ in 0..count {
-        match r.below(4) {
-            0 => sv::history::<0>(r, out),
-            1 | 2 => sv::history::<1>(r, out),
-            _ => sv::history::<2>(r, out),
-        }
-    }
-}
-
-// ------------------------------------------------------------------------------------------ expr
-
-fn expr_queries<C: CellType>(e: &ir::Expr<C>, assign: &[u64; 4]) -> String {
-    let optc = |o: Option<C>| o.map_or("none".to_string(), |c| c.into_u64().to_string());
-    let opte = |o: Option<ir::Expr<C>>| o.map_or("none".to_string(), |e| encode_expr(&e));
-    let mut s = format!(
-        "const={} ident={} cpart={} zero={} ops={} adds={} vars={}",
-        optc(e.constant()),
-        e.identity().map_or("none".to_string(), |v| v.to_string()),
-        e.constant_part().into_u64(),
-        e.is_zero(),
-        e.op_count(),
-        e.add_count(),
-        {
-            let v: Vec<String> = e.variables().map(|v| v.to_string()).collect();
-            if v.is_empty() { "-".to_string() } else { v.join(",") }
-        }
-    );
-    for i in [0isize, 1] {
-        s.push_str(&format!(
-            " inc{i}={} pinc{i}={} cinc{i}={} prod{i}={}",
-            opte(e.inc_of(i)),
-            e.prod_inc_of(i)
-                .map_or("none".to_string(), |(e, m)| format!("{}@{}", encode_expr(&e), m.into_u64())),
-            optc(e.const_inc_of(i)),
-            opte(e.prod_of(i)),
-        ));
-    }
-    let val = e.evaluate(|v| C::from_u64(assign[(v + 1) as usize]));
-    s.push_str(&format!(" eval={}", val.into_u64()));
-    s
-}
-
-fn expr_case<C: CellType>(w: u32, r: &mut Rng, out: &mut Out) {
-    let mut stack: Vec<ir::Expr<C>> = Vec::new();
-    let mut req = format!("expr {w}");
-    let mut imp: Vec<String> = Vec::new();
-    let assign = [interesting(r, w), interesting(r, w), r.below(5), interesting(r, w)];
-    req.push_str(&format!(" env:{},{},{},{}", assign[0], assign[1], assign[2], assign[3]));
-    let n = 2 + r.below(14);
-    let half_mod = 1u64 << (w - 1);
-    let mask = if w == 64 { u64::MAX } else { (1u64 << w) - 1 };
-    for _ in 0..n {
-        let choice = if stack.len() < 2 { r.below(2) } else { 2 + r.below(12) };
-        match choice {
-            0 => {
-                let c = match r.below(8) {
-                    0 => 0,
-                    1 => 1,
-                    2 => mask,
-                    3 => half_mod,
-                    4 => half_mod + 1,
-                    5 => half_mod - 1,
-                    6 => 2,
-                    _ => r.next() & mask,
-                };
-                stack.push(ir::Expr::val(C::from_u64(c)));
-                req.push_str(&format!(" v:{c}"));
-                out.stat("val");
+            "irparse" if t.len() == 3 => {
+                let w: u32 = t[1].parse().unwrap();
+                let code = String::from_utf8(crate::util::unhex(t[2]).unwrap()).unwrap();
+                with_width!(w, irparse_case, w, &code, out);
             }
-            1 => {
-                let v = r.range(-1, 2);
-                stack.push(ir::Expr::var(v as isize));
-                req.push_str(&format!(" x:{v}"));
-                out.stat("var");
+            "irrun" if t.len() == 8 => {
+                let w: u32 = t[1].parse().unwrap();
+                let env = EnvSpec::decode(t[5], t[6]).unwrap();
+                let code = String::from_utf8(crate::util::unhex(t[7]).unwrap()).unwrap();
+                let budget: usize = t[3].parse().unwrap();
+                with_width!(w, irrun_case, w, &code, &env, budget, out);
             }
-            2..=4 => {
-                let b = stack.pop().unwrap();
-                let a = stack.pop().unwrap();
-                stack.push(a.add(&b));
-                req.push_str(" add");
-                out.stat("add");
-            }
-            5..=8 => {
-                let b = stack.pop().unwrap();
-                let a = stack.pop().unwrap();
-                stack.push(if r.chance(1, 2) { a.mul(&b) } else { a.mul(b) });
-                req.push_str(" mul");
-                out.stat("mul");
-            }
-            9 => {
-                let a = stack.pop().unwrap();
-                stack.push(a.neg());
-                req.push_str(" neg");
-                out.stat("neg");
-            }
-            10 => {
-                let a = stack.pop().unwrap();
-                match a.half() {
-                    Some(h) => {
-                        stack.push(h);
-                        out.stat("half_some");
-                    }
-                    None => {
-                        stack.push(a);
-                        out.stat("half_none");
-                    }
-                }
-                req.push_str(" half");
-            }
-            11 => {
-                let a = stack.pop().unwrap();
-                stack.push(a.normalize());
-                req.push_str(" norm");
-                out.stat("normalize");
-            }
-            12 => {
-                let i = r.range(-1, 2) as isize;
-                let b = stack.pop().unwrap();
-                let a = stack.pop().unwrap();
-                let res = a
-                    .symb_evaluate(|v| if v == i { Some(b.clone()) } else { Some(ir::Expr::var(v)) })
-                    .unwrap();
-                stack.push(res);
-                req.push_str(&format!(" sub:{i}"));
-                out.stat("symb_evaluate");
-            }
+            "cell" => out.case(line, &crate::dsuites::exec_cell(&t)),
+            "mem" => out.case(line, &crate::dsuites::exec_mem(&t)),
+            "sv" => out.case(line, &crate::dsuites::exec_sv(&t)),
+            "expr" => out.case(line, &crate::dsuites::exec_expr(&t)),
             _ => {
-                let i = r.range(-1, 2) as isize;
-                let a = stack.pop().unwrap();
-                match a.symb_evaluate(|v| if v == i { None } else { Some(ir::Expr::var(v)) }) {
-                    Some(e) => {
-                        stack.push(e);
-                        out.stat("symb_partial_some");
-                    }
-                    None => {
-                        stack.push(a);
-                        out.stat("symb_partial_none");
-                    }
-                }
-                req.push_str(&format!(" subnone:{i}"));
+                out.case(line, "unsupported-replay");
             }
         }
-        imp.push(encode_expr(stack.last().unwrap()));
-    }
-    imp.push(expr_queries(stack.last().unwrap(), &assign));
-    out.case(&req, &imp.join(" "));
-}
-
-pub fn expr(r: &mut Rng, count: usize, out: &mut Out) {
-    for _ in 0..count {
-        let w = *r.pick(&WIDTHS);
-        with_width!(w, expr_case, w, r, out);
+        if out.cases == before {
+            // the case was skipped by its gate (e.g. does not terminate within the gate budget)
+            out.case(line, "skipped");
+        }
     }
 }
